@@ -9,11 +9,18 @@
 // output: Err 1 (rejected) | Err 2 (result does not pack) |
 //         [nExtra nOpt canon []] when RemoteAddr is nil (canon of the whole result) |
 //         [nExtra nOpt canonWithoutLastExtra last], last = [name rrtype udpsize ttl [[code family mask scope addr]...]] for an OPT RR
+// further inputs: [1 retryMax timeoutMs] -> NewDnsClient configuration [net udpSize timeoutMs singleInflight retryMax];
+//   [2 reqA reqB] -> two concurrent DnsClient.Fetch calls against an in-process UDP upstream (answers after 30 ms):
+//   [[okA replyIdA] [okB replyIdB] [[id family mask scope addr] ... sorted by id]] = what the upstream received
 package main
 
 import (
 	"encoding/base64"
 	"io"
+	"io/ioutil"
+	"sort"
+	"sync"
+	"time"
 	"net"
 	"net/url"
 
@@ -93,7 +100,7 @@ func describeRR(rr dns.RR) hv.Val {
 	return hv.L{hv.S(h.Name), hv.I(int(h.Rrtype)), hv.I(int(h.Class)), hv.U(uint64(h.Ttl)), opts}
 }
 
-func impl(in hv.Val) hv.Val {
+func buildReq(in hv.Val) (*bfe_basic.Request, hv.L) {
 	top := hv.AsList(in)
 	method := hv.AsStr(top[0])
 	values := hv.AsList(top[1])
@@ -127,6 +134,115 @@ func impl(in hv.Val) hv.Val {
 	if len(client) == 1 {
 		req.ClientAddr = &net.TCPAddr{IP: net.IP(append([]byte(nil), hv.AsBytes(client[0])...)), Port: 5000}
 	}
+	return req, remote
+}
+
+// ---- in-process upstream resolver
+type upEntry struct {
+	id   int
+	desc hv.Val
+}
+
+var (
+	upOnce sync.Once
+	upAddr string
+	upMu   sync.Mutex
+	upLog  []upEntry
+)
+
+func startUpstream() {
+	pc, err := net.ListenPacket("udp", "127.0.0.1:0")
+	if err != nil {
+		panic(err)
+	}
+	upAddr = pc.LocalAddr().String()
+	h := dns.HandlerFunc(func(w dns.ResponseWriter, r *dns.Msg) {
+		fam, mask, scope := 0, 0, 0
+		var addr []byte
+		if opt := r.IsEdns0(); opt != nil {
+			for _, o := range opt.Option {
+				if s, ok := o.(*dns.EDNS0_SUBNET); ok {
+					fam, mask, scope = int(s.Family), int(s.SourceNetmask), int(s.SourceScope)
+					if s.Family == 1 {
+						addr = s.Address.To4()
+					} else {
+						addr = s.Address.To16()
+					}
+				}
+			}
+		}
+		upMu.Lock()
+		upLog = append(upLog, upEntry{int(r.Id), hv.L{hv.I(int(r.Id)), hv.I(fam), hv.I(mask), hv.I(scope), hv.B(addr)}})
+		upMu.Unlock()
+		time.Sleep(30 * time.Millisecond)
+		m := new(dns.Msg)
+		m.SetReply(r)
+		_ = w.WriteMsg(m)
+	})
+	srv := &dns.Server{PacketConn: pc, Handler: h}
+	go func() { _ = srv.ActivateAndServe() }()
+}
+
+func fetchPair(a, b hv.Val) hv.Val {
+	upOnce.Do(startUpstream)
+	upMu.Lock()
+	upLog = nil
+	upMu.Unlock()
+	client := mod_doh.NewDnsClient(&mod_doh.DnsConf{Address: upAddr, RetryMax: 0, Timeout: 8000})
+	reqA, _ := buildReq(a)
+	reqB, _ := buildReq(b)
+	res := make([]hv.Val, 2)
+	var wg sync.WaitGroup
+	one := func(k int, req *bfe_basic.Request) {
+		defer wg.Done()
+		defer func() {
+			if recover() != nil {
+				res[k] = hv.L{hv.I(-2), hv.I(0)}
+			}
+		}()
+		resp, err := client.Fetch(req)
+		if err != nil {
+			res[k] = hv.L{hv.I(0), hv.I(0)}
+			return
+		}
+		data, _ := ioutil.ReadAll(resp.Body)
+		m := new(dns.Msg)
+		if err := m.Unpack(data); err != nil {
+			res[k] = hv.L{hv.I(0), hv.I(1)}
+			return
+		}
+		res[k] = hv.L{hv.I(1), hv.I(int(m.Id))}
+	}
+	wg.Add(2)
+	go one(0, reqA)
+	time.Sleep(8 * time.Millisecond) // B arrives while A is still waiting for the upstream
+	go one(1, reqB)
+	wg.Wait()
+	upMu.Lock()
+	log := append([]upEntry(nil), upLog...)
+	upMu.Unlock()
+	sort.SliceStable(log, func(i, j int) bool { return log[i].id < log[j].id })
+	lv := hv.L{}
+	for _, e := range log {
+		lv = append(lv, e.desc)
+	}
+	return hv.L{res[0], res[1], lv}
+}
+
+func impl(in hv.Val) hv.Val {
+	top := hv.AsList(in)
+	if _, isBytes := top[0].(hv.B); !isBytes {
+		switch hv.AsInt(top[0]) {
+		case 1:
+			netw, udp, to, single, retry, _ := mod_doh.VerifDnsClientConfigC56(&mod_doh.DnsConf{Address: "127.0.0.1:53",
+				RetryMax: int(hv.AsInt(top[1])), Timeout: int(hv.AsInt(top[2]))})
+			return hv.L{hv.S(netw), hv.I(udp), hv.Z(to), hv.Bool(single), hv.I(retry)}
+		case 2:
+			return fetchPair(top[1], top[2])
+		}
+		return hv.Err(9)
+	}
+	req, remote := buildReq(in)
 	msg, err := mod_doh.RequestToDnsMsg(req)
 	if err != nil {
 		return hv.Err(1)
@@ -259,7 +375,42 @@ func genIP(r *hv.Rng) ([]byte, string) {
 	}
 }
 
+// two clients asking the same question at the same time (different IDs, different addresses)
+func genPair(r *hv.Rng) (string, hv.Val) {
+	q := dns.Question{Name: r.Pick(names), Qtype: []uint16{dns.TypeA, dns.TypeAAAA, dns.TypeTXT}[r.Intn(3)], Qclass: dns.ClassINET}
+	ida := r.Intn(65536)
+	idb := (ida + 1 + r.Intn(65535)) % 65536
+	one := func(id int) (hv.Val, string) {
+		m := new(dns.Msg)
+		m.Id = uint16(id)
+		m.RecursionDesired = true
+		m.Question = []dns.Question{q}
+		wire, _ := m.Pack()
+		ip, c := genIP(r)
+		remote := hv.L{hv.B(ip)}
+		client := hv.L{}
+		if r.Chance(1, 3) {
+			cip, cc := genIP(r)
+			client = hv.L{hv.B(cip)}
+			c = cc
+		}
+		if r.Bool() {
+			return hv.L{hv.S("GET"), hv.L{hv.S(base64.RawURLEncoding.EncodeToString(wire))}, hv.B(nil), hv.I(0), remote, client, hv.L{oracleEntry(wire)}, hv.I(-1)}, c
+		}
+		return hv.L{hv.S("POST"), hv.L{}, hv.B(wire), hv.I(0), remote, client, hv.L{oracleEntry(wire)}, hv.I(-1)}, c
+	}
+	a, ca := one(ida)
+	b, cb := one(idb)
+	return "fetch/pair-" + ca + "-" + cb, hv.L{hv.I(2), a, b}
+}
+
 func gen(r *hv.Rng, i int, tier string) (string, hv.Val) {
+	if i%100 == 7 {
+		return genPair(r)
+	}
+	if i%100 == 57 {
+		return "fetch/conf", hv.L{hv.I(1), hv.I(r.Intn(4)), hv.I(r.Range(1, 5000))}
+	}
 	m, mclass := genMsg(r)
 	wire, err := m.Pack()
 	if err != nil {
